@@ -2,13 +2,20 @@ package value
 
 import (
 	"fmt"
+	"math"
 	"sync"
 )
 
 var WaitGroupClass *Class // ::Std::Sync::WaitGroup
 
+// Wraps a Go WaitGroup.
+//
+// `sync.WaitGroup` panics when its counter goes negative (or overflows 32 bits),
+// so the counter is mirrored and checked before the native one is updated.
 type WaitGroup struct {
 	Native sync.WaitGroup
+	mutex  sync.Mutex // serialises updates of the counter
+	count  int64      // mirror of the counter of `Native`
 }
 
 func WaitGroupConstructor(class *Class) Value {
@@ -47,22 +54,46 @@ func (w *WaitGroup) InstanceVariables() *InstanceVariables {
 	return nil
 }
 
-func (w *WaitGroup) Add(n int) {
-	w.Native.Add(n)
-}
+// Adds n, which may be negative, to the counter.
+// Returns an error and leaves the counter unchanged when it would become negative or too large.
+func (w *WaitGroup) Add(n int) (err Value) {
+	w.mutex.Lock()
+	defer w.mutex.Unlock()
 
-func (w *WaitGroup) Remove(n int) {
-	for range n {
-		w.Native.Done()
+	if n > math.MaxInt32 || n < -math.MaxInt32 {
+		return Ref(NewError(OutOfRangeErrorClass, "n is too large"))
 	}
+	count := w.count + int64(n)
+	if count < 0 {
+		return Ref(NewError(OutOfRangeErrorClass, "negative WaitGroup counter"))
+	}
+	if count > math.MaxInt32 {
+		return Ref(NewError(OutOfRangeErrorClass, "WaitGroup counter is too large"))
+	}
+
+	w.count = count
+	w.Native.Add(n)
+	return Undefined
 }
 
-func (w *WaitGroup) Start() {
-	w.Native.Add(1)
+// Decrements the counter by n, does nothing when n is not positive.
+// Returns an error and leaves the counter unchanged when it would become negative.
+func (w *WaitGroup) Remove(n int) (err Value) {
+	if n <= 0 {
+		return Undefined
+	}
+	if n > math.MaxInt32 {
+		return Ref(NewError(OutOfRangeErrorClass, "negative WaitGroup counter"))
+	}
+	return w.Add(-n)
 }
 
-func (w *WaitGroup) End() {
-	w.Native.Done()
+func (w *WaitGroup) Start() (err Value) {
+	return w.Add(1)
+}
+
+func (w *WaitGroup) End() (err Value) {
+	return w.Add(-1)
 }
 
 func (w *WaitGroup) Wait() {
